@@ -158,6 +158,34 @@ def c12_driver(a, col):
             col.add([_V("C12", ok, "operation-operator", f"{sp['fam']}.{sp['type']} dims={dims}: {det}",
                         ("Operation.operator", sp["fam"] + "." + sp["type"], min(dims[0], 12)), fn="Operation.operator", op=sp["fam"] + "." + sp["type"])],
                     _mk_replay("C12", "operation", spec=sp, dims=dims))
+        # ---- many Operation objects alive at once: all are constructed first (same types, different parameters),
+        #      then asked for their operators in shuffled order - an object must answer with its own parameters
+        pool = []
+        for sp, dims in specs:
+            pool.append((sp, dims))
+            sp2 = dict(sp)
+            for k in ("theta", "phi", "omega", "eta"):
+                if k in sp2:
+                    sp2[k] = float(rng.uniform(-7, 9))
+            for k in ("alpha", "zeta"):
+                if k in sp2:
+                    z = complex(rng.uniform(0.05, 0.6) * np.exp(1j * rng.uniform(0, 2 * math.pi)))
+                    sp2[k] = [z.real, z.imag]
+            if sp2 != sp:
+                pool.append((sp2, dims))
+        objs = [(sp, dims, opspec.build_operation(sp)) for sp, dims in pool]
+        for j in rng.permutation(len(objs)):
+            sp, dims, op = objs[int(j)]
+            try:
+                op.dimensions = list(dims)
+                got = np.asarray(op.operator, complex)
+                ok, det = contracts._cmp(got, opspec.ref_operator(sp, dims), 1e-8)
+            except Exception as e:  # noqa: BLE001
+                ok, det = False, f"{type(e).__name__}: {e}"
+            _flush("C12", col, _mk_replay("C12", "operation-pool", spec=sp, dims=dims))
+            col.add([_V("C12", ok, "operation-operator-pool", f"{sp['fam']}.{sp['type']} dims={dims}, read after other operations of the same type had been constructed: {det}",
+                        ("Operation.operator-pool", sp["fam"] + "." + sp["type"], min(dims[0], 12)), fn="Operation.operator", op=sp["fam"] + "." + sp["type"])],
+                    _mk_replay("C12", "operation-pool", pool=pool))
         # ---- one Operation object asked for its operator at several dimension lists (also lists with equal product)
         reuse_specs = [
             ({"fam": "comp", "type": "NonPolarizingBeamSplitter", "eta": float(rng.uniform(-4, 4))}, [[2, 6], [3, 4], [4, 3], [6, 2], [3, 3]]),
@@ -327,7 +355,12 @@ def c16_driver(a, col):
         col.add([_V("C16", not changed, "context-mutated", f"context results {changed} modified", ("interpreter", "context-bytes"), head=str(head))], replay)
         # malformed heads must raise
         if n % 5 == 0:
-            for bad_head in ("foo", "Add", "", 1, "kronn", None, "mult"):
+            cmds = ("add", "sub", "s_mult", "m_mult", "kron", "expm", "div")
+            c = str(rng.choice(cmds))
+            k = int(rng.integers(1, len(c)))
+            frags = [c[:k], c[k:], c[:-1], c[1:], c.upper(), c.capitalize(), c + " ", " " + c, c + c[-1]]
+            frags = [f for f in frags if f not in cmds]
+            for bad_head in ["foo", "Add", "", 1, "kronn", None, "mult"] + [str(f) for f in rng.choice(frags, size=min(3, len(frags)), replace=False)]:
                 e2 = (bad_head, _rand_matrix(rng, d, "np"), _rand_matrix(rng, d, "np"))
                 nested = ("add", _rand_matrix(rng, d, "np"), e2) if rng.random() < 0.5 else e2
                 raised = False
@@ -340,6 +373,33 @@ def c16_driver(a, col):
                 col.add([_V("C16", raised, "unknown-command-accepted", f"head {bad_head!r} returned {type(val).__name__}",
                             ("interpreter", "malformed", repr(bad_head)), head=repr(bad_head))],
                         lambda: {"prop": "C16", "kind": "malformed", "head": repr(bad_head)})
+        # names are resolved through the context called with the *current* dimension list: one expression-defined
+        # Operation asked for its operator at a sequence of dimension lists (permutations, equal products)
+        if n % 7 == 0:
+            from pwv import opspec
+            sp = {"fam": "comp", "type": "Expression", "state_types": ["F", "F"],
+                  "expr": ["expm", ["s_mult", {"num": [0.0, float(rng.uniform(0.2, 1.5))]}, ["add", ["kron", "n0", "i1"], ["kron", "a0", "n1"], ["kron", "i0", "n1"]]]],
+                  "context": {"n0": {"f": "number", "i": 0}, "n1": {"f": "number", "i": 1}, "i0": {"f": "eye", "i": 0}, "i1": {"f": "eye", "i": 1},
+                              "a0": {"f": "create", "i": 0}}}
+            base = [int(x) for x in rng.integers(1, 5, size=2)]
+            seq = [base, base[::-1], [base[0] * base[1], 1], [1, base[0] * base[1]], base, [base[0] + 1, base[1]]]
+            try:
+                op = opspec.build_operation(sp)
+            except Exception:  # noqa: BLE001
+                op = None
+            for dl in seq:
+                if op is None:
+                    break
+                try:
+                    op.dimensions = list(dl)
+                    got = np.asarray(op.operator, complex)
+                    ok, det = contracts._cmp(got, opspec.ref_operator(sp, dl), 2e-6)
+                except Exception as e:  # noqa: BLE001
+                    ok, det = False, f"{type(e).__name__}: {e}"
+                contracts.drain("C16")
+                col.add([_V("C16", ok, "operation-stale-dimension-list", f"expression operation asked at dims={dl} after {seq[:seq.index(dl)]}: {det}",
+                            ("operation", "dimension-list", "permuted" if sorted(dl) == sorted(base) and dl != base else "other"), head="expm")],
+                        lambda: {"prop": "C16", "kind": "operation-dims", "spec": sp, "seq": seq})
         col.programs += 1
     col.extra["contract_evaluations"] = dict(contracts.COUNT)
     col.samples.append({"example_tree": contracts._brief(before, 400), "dims": dims})
@@ -380,13 +440,27 @@ def c19_driver(a, col):
         e2 = Envelope(temporal_profile=TemporalProfile.Gaussian.with_params(mu=mu2, sigma=s2)) if x >= 0.1 else Envelope()
         if x < 0.1:
             mu1 = mu2 = 0.0
+        # the overlap of the temporal profiles does not involve the carriers: wavelengths (any scale relative to the
+        # pulse width) and the refractive index must not matter
+        wl1 = wl2 = 1550.0
+        nidx = 1.0
+        if rng.random() < 0.5:
+            wl1 = float(3e8 * min(s1, s2) * 10 ** rng.uniform(-3, 3))
+            wl2 = wl1 * float(rng.choice([1.0, 10 ** rng.uniform(-1.5, 1.5), 780.0 / 1550.0]))
+            e1.wavelength, e2.wavelength = wl1, wl2
+            nidx = float(rng.choice([1.0, 1.45, 2.2]))
 
-        def replay(s1=s1, s2=s2, mu1=mu1, mu2=mu2, delay=delay):
-            return {"prop": "C19", "kind": "overlap", "sigma1": s1, "sigma2": s2, "mu1": mu1, "mu2": mu2, "delay": delay}
+        def replay(s1=s1, s2=s2, mu1=mu1, mu2=mu2, delay=delay, wl1=wl1, wl2=wl2, nidx=nidx):
+            return {"prop": "C19", "kind": "overlap", "sigma1": s1, "sigma2": s2, "mu1": mu1, "mu2": mu2, "delay": delay,
+                    "wavelength1": wl1, "wavelength2": wl2, "n": nidx}
 
         try:
-            r12 = e1.overlap_integral(e2, delay)
-            r21 = e2.overlap_integral(e1, -delay)
+            if nidx != 1.0:
+                r12 = e1.overlap_integral(e2, delay, n=nidx)
+                r21 = e2.overlap_integral(e1, -delay, n=nidx)
+            else:
+                r12 = e1.overlap_integral(e2, delay)
+                r21 = e2.overlap_integral(e1, -delay)
             exc = None
         except Exception as e:  # noqa: BLE001
             exc = e
